@@ -42,3 +42,30 @@ Qed.
 Theorem refuted_numbered_by_count :
   inside_ (hrun false [HEnter; HEnter; HLeave 0; HEnter]) = [2; 2] /\ inside_ (hrun true [HEnter; HEnter; HLeave 0; HEnter]) = [2; 3].
 Proof. split; reflexivity. Qed.
+
+(* ---------------- over the whole life of the activity ---------------- *)
+Definition HInv2 (s : hst2) : Prop := NoDup (issued2 s) /\ forall n, In n (issued2 s) -> n <= counter2 s.
+
+Lemma hinv2_step s l : HInv2 s -> HInv2 (hstep2 false s l).
+Proof.
+  intros [ND B]. destruct l as [|k]; unfold HInv2; cbn.
+  - split.
+    + apply nodup_snoc; auto. intros I. specialize (B _ I). lia.
+    + intros n I. apply in_app_or in I. destruct I as [I|[E|[]]]; [specialize (B _ I); lia|subst; lia].
+  - split; assumption.
+Qed.
+
+(** no number is ever issued twice, whatever the order in which tokens enter and leave (or are withdrawn): a late answer
+    can only find its own token, or nobody *)
+Theorem numbers_never_reused p : NoDup (issued2 (hrun2 false p)).
+Proof.
+  unfold hrun2. assert (G : forall p s, HInv2 s -> HInv2 (fold_left (hstep2 false) p s)).
+  { induction p0 as [|l p0 IH]; intros s I; cbn [fold_left]; auto. apply IH, hinv2_step, I. }
+  apply (G p hinit2). split; cbn; [constructor|tauto].
+Qed.
+
+(* a counter that starts again when the activity is empty: a token enters, is withdrawn, another one enters -- it gets
+   the withdrawn token's number, whose late answer is then taken for its own *)
+Theorem refuted_counter_set_back :
+  issued2 (hrun2 true [HEnter; HLeave 0; HEnter]) = [1; 1] /\ issued2 (hrun2 false [HEnter; HLeave 0; HEnter]) = [1; 2].
+Proof. split; reflexivity. Qed.
